@@ -779,6 +779,8 @@ def namespace_validated_first(repo, rep, rid, select):
         n += 1
         r.sites += 1
         r.functions.add(f.fq)
+        from ..cfg import assertion_only
+
         def sequence(fn, depth=0):
             """self.* calls in order; a private helper that itself validates
             the namespace is replaced by its own sequence"""
@@ -797,6 +799,9 @@ def namespace_validated_first(repo, rep, rid, select):
                         else []
                     if 'self.validate_namespace' in sub:
                         out += sub
+                    elif h_ is not None and all(
+                            assertion_only(x_) for x_ in h_.body):
+                        pass        # a helper that only asserts types
                     else:
                         out.append(d_)
             return out
